@@ -2,14 +2,16 @@
 # tools/seeded_all.sh [tier] : every /verif/seeded/<ID>-<X>/patch.diff against its home property's check; writes result.txt + meta.json
 cd "$(dirname "$0")/.."
 TIER=${1:-quick}
-ls -d seeded/C*-* | xargs -P 4 -I{} bash -c 'id=$(basename {} | cut -d- -f1); tools/seeded_eval.sh $(pwd)/{} $id '$TIER' > {}/result_'$TIER'.txt 2>&1'
+SEED=${VERIF_SEED:-1}
+export VERIF_SEED=$SEED
+ls -d seeded/C*-* | xargs -P 4 -I{} bash -c 'id=$(basename {} | cut -d- -f1); tools/seeded_eval.sh $(pwd)/{} $id '$TIER' > {}/result_'$TIER'_s'$SEED'.txt 2>&1'
 /venv/bin/python - "$TIER" <<'PY'
 import json,os,sys,glob
-tier=sys.argv[1]
+tier=sys.argv[1]; seed=os.environ.get('VERIF_SEED','1')
 rows=[]
 for d in sorted(glob.glob('seeded/C*-*')):
     pid=os.path.basename(d).split('-')[0]
-    res=open(os.path.join(d,'result_%s.txt'%tier)).read()
+    res=open(os.path.join(d,'result_%s_s%s.txt'%(tier,seed))).read()
     caught='rc=1' in res
     am={}
     p=os.path.join(d,'agent_meta.json')
@@ -21,7 +23,7 @@ for d in sorted(glob.glob('seeded/C*-*')):
     meta.update({"property":pid,"summary":am.get("summary",""),"files":am.get("files",[]),"needs_to_manifest":am.get("needs_to_manifest",""),
       "confirmed":"applied to a scratch copy of /repo HEAD: repository suite 182 passed with the change; demo.py exit 1 with the change, exit 0 without (tools/seeded_eval.sh <dir> <ID> quick --full)",
       })
-    meta.setdefault("results",{})[tier]={"check":pid,"caught":caught,"output":res.strip().splitlines()[:3]}
+    meta.setdefault("results",{})[tier if seed=='1' else '%s_seed%s'%(tier,seed)]={"check":pid,"caught":caught,"output":res.strip().splitlines()[:3]}
     json.dump(meta,open(mp,'w'),indent=1)
     rows.append((os.path.basename(d),caught,res.strip().splitlines()[0][:110] if res.strip() else ''))
 for r in rows: print("%-7s %-6s %s"%(r[0],"CAUGHT" if r[1] else "MISSED",r[2]))
